@@ -1,6 +1,7 @@
 package main
 
 import (
+	"bytes"
 	"encoding/hex"
 	"fmt"
 	"io"
@@ -102,7 +103,7 @@ func runScanOps(sc *scanCase, mode byte) (res []string, hang bool) {
 	done := make(chan []string, 1)
 	go func() {
 		var out []string
-		s := pdf.NewVerifScanner(rd, nil, nil)
+		s := pdf.NewVerifScanner(rd, nil, robGetInt)
 		for _, op := range sc.ops {
 			if op == "o" { // ReadObject, last operation: class and position after success
 				r, panicked := runScanObject(s)
@@ -127,6 +128,16 @@ func runScanOps(sc *scanCase, mode byte) (res []string, hang bool) {
 	case <-time.After(5 * time.Second):
 		return []string{"@hang"}, true
 	}
+}
+
+// robGetInt stands for Reader.getInt of a real session (a nil function value
+// would make ReadStreamData panic on a direct /Length, an artefact of the
+// test hook only): direct integers only.
+func robGetInt(o pdf.Object) (pdf.Integer, error) {
+	if i, ok := o.(pdf.Integer); ok {
+		return i, nil
+	}
+	return 0, fmt.Errorf("not an integer")
 }
 
 func runScanObject(s *pdf.VerifScanner) (res string, panicked bool) {
@@ -227,6 +238,25 @@ func scanFaultOracle(sc *scanCase) (ok bool, key, detail string) {
 		}
 		if fp[0] == "s" && fp[1] == "malformed" && gp[1] == "ok" && len(sc.ops[i]) > 3 {
 			key = "C19-peekn-short-read-error-swallowed"
+		}
+		// finding ROB-7: tryHex ignores the error of its PeekN(3) ('buf, _ :=
+		// s.PeekN(3)'): when the reader fails inside a '#xx' escape the '#' is kept
+		// as a literal character and the name goes on over what is left in the
+		// window; at the 4096-byte cap that ends in "name too long" (malformed)
+		// instead of the reader's error
+		if len(fp) == 2 && fp[0] == "o" && fp[1] == "malformed" && len(gp) == 3 && gp[1] == "ok" &&
+			bytes.Contains(sc.data, []byte("#")) && len(sc.data) > 4096 {
+			key = "C19-tryhex-peek-error-ignored"
+		}
+		// finding ROB-6: ReadObject ignores the error of the PeekN(6) that looks for
+		// "stream" behind a dictionary (scanner.go `buf, _ = s.PeekN(6)`): when the
+		// reader fails inside the keyword, the stream's dictionary is returned as a
+		// plain dictionary with a nil error (the error stays latched in the scanner)
+		if len(fp) == 3 && fp[0] == "o" && fp[1] == "ok" {
+			if n, err := strconv.Atoi(fp[2]); err == nil && n >= 2 && n <= len(sc.data) &&
+				bytes.HasPrefix(sc.data[n:], []byte("stream")) && bytes.Contains(sc.data[:n], []byte(">>")) {
+				key = "C19-readobject-stream-peek-error-ignored"
+			}
 		}
 		return false, key, fmt.Sprintf("op %d (%s): with fault %q, fault-free %q", i, sc.ops[i], truncate(f), truncate(good[i]))
 	}
@@ -358,10 +388,12 @@ func robScanRun(c *Ctx, faults bool) {
 			}
 			sc.short = Pick(r, []int{0, 0, 1, 5, 100, 1023, 1024, 4000})
 		}
-		// fault-free: finish with ReadObject at the current position (not after
+		// finish with ReadObject at the current position (not after
 		// digit runs of 300+ bytes: Model/Scan.lean does not model the range
 		// error of strconv.ParseFloat, see its comment in readNumber)
-		if !withFault && (r.P(1, 2) || len(sc.data) < 12) && !robLongDigits.Match(sc.data) {
+		// (also on failing readers: the model line is computed by the buffer-level
+		// parser of Model/ROBScanObj.lean over the same reader)
+		if (r.P(1, 2) || len(sc.data) < 12) && !robLongDigits.Match(sc.data) {
 			if r.P(1, 3) {
 				sc.ops = []string{"o"}
 			} else {
@@ -401,6 +433,77 @@ func robScanRun(c *Ctx, faults bool) {
 			c.Sample(truncate(line) + " => " + truncate(strings.Join(res, ",")))
 		}
 	}
+}
+
+// robObjFaultRun: ReadObject under ALL-k faults.  Every object text of a small
+// corpus (every token kind, escapes, '#' names, nesting, references, a stream
+// dictionary) is read through a reader that serves 1 (or 3) bytes per call
+// and fails from call k on, for every k up to the end of the text, with 0 or
+// 1 bytes delivered together with the error.  The line is compared with the
+// buffer-level parser model (Model/ROBScanObj.lean over the same faulty
+// source); the oracle is that of the theorem readObject_fault: the fault-free
+// result (value class and position) or the injected error.
+var robObjCorpus = []string{
+	"12 ", "-3.5 ", "+.5e", "true ", "false]", "null ", "nul", "tru", "/Name ", "/A#42#4 ", "/A#", "/#4", "/A#4/B ",
+	"(abc) ", "(a(b)c\\)\\101\\7x\\\n\\n) ", "(un", "<4a4B> ", "<4a4", "<4 a\n4> ", "<4x>",
+	"[1 2 R /N (s) <41> true null] ", "[1 2 3 R 4 R] ", "[[[]]] ", "[1 2", "[1 2 R",
+	"<</A 1/B[2 0 R]/C<</D(x)>>>> ", "<</A 1 /B 2 0 R>>x", "<< /A#41 null /B 1 >> ", "<</A>>", "<</A 1",
+	"<</Length 3>>\nstream\nabc\nendstream ", "<</Length 3>>stream\r\nabc", "<<>> \n stream", "<<>> strea", "<<>> streaX",
+	"[<</A 1>> stream]", "% c\n 7 ", ">", ")", "]", "xyz", "",
+}
+
+func robObjFaultRun(c *Ctx) {
+	for _, txt := range robObjCorpus {
+		data := []byte(txt)
+		for _, chunk := range []int{1, 3} {
+			for _, short := range []int{0, 1} {
+				if chunk == 1 && short == 1 {
+					continue
+				}
+				for k := 0; k <= len(data)/chunk+2; k++ {
+					for _, mode := range []byte{'f', 'o'} {
+						sc := &scanCase{data: data, chunk: chunk, mode: mode, k: k, short: short, ops: []string{"o"}}
+						line := sc.line()
+						res, hang := runScanOps(sc, mode)
+						c.Emit(line, strings.Join(res, ","))
+						c.Case(line, true)
+						for _, x := range res {
+							parts := strings.Split(strings.SplitN(x, "@", 2)[0], ":")
+							c.Stat("objfault_result_" + parts[1])
+						}
+						if hang {
+							c.Violate("scan", "C19-scanner-hang", "ReadObject did not return within 5 s: "+truncate(line), line)
+							continue
+						}
+						if ok, key, d := scanFaultOracle(sc); !ok {
+							c.Violate("scan", key, d+" in "+truncate(line), line)
+						}
+					}
+				}
+			}
+		}
+	}
+	// finding ROB-7 (tryHex drops the error of its PeekN(3)): a name that reaches
+	// the 4096-byte cap with a '#xx' escape as its last character; the reader
+	// fails after "#4".  Only the calls around the escape are enumerated.
+	long := []byte("/" + strings.Repeat("a", 4095) + "#41 ")
+	for k := len(long) - 8; k <= len(long)+1; k++ {
+		for _, mode := range []byte{'f', 'o'} {
+			sc := &scanCase{data: long, chunk: 1, mode: mode, k: k, ops: []string{"o"}}
+			line := sc.line()
+			res, hang := runScanOps(sc, mode)
+			c.Emit(line, strings.Join(res, ","))
+			c.Case(line, true)
+			if hang {
+				c.Violate("scan", "C19-scanner-hang", "ReadObject did not return within 5 s: "+truncate(line), line)
+				continue
+			}
+			if ok, key, d := scanFaultOracle(sc); !ok {
+				c.Violate("scan", key, d+" in "+truncate(line), line)
+			}
+		}
+	}
+	c.Stat("objfault_all_k")
 }
 
 // robTokenSeqRun: EXHAUSTIVE short token sequences inside the two composite
